@@ -34,6 +34,17 @@ def frac(x):
     return Fraction(float(x))
 
 
+def sexp(x):
+    """exp that never raises: +inf on overflow AND on NaN (so that every comparison of the result with a finite reference, written
+    either as `abs(a - b) > tol` or as `abs(a - b) <= tol`, reports a difference), 0.0 far below the double range"""
+    x = float(x)
+    if x != x or x > 709.0:
+        return float('inf')
+    if x < -745.0:
+        return 0.0
+    return math.exp(x)
+
+
 def fstr(q):
     q = Fraction(q)
     return f"{q.numerator}/{q.denominator}"
